@@ -225,6 +225,23 @@ func generate() {
 	funcDExp("treeIsGood", "node.go", "Server", "IsGood")
 	funcDExp("treeHaveQuery", "traversal/operation.go", "Operation", "haveQuery")
 	funcDExp("treeValidNodeAddr", "server.go", "", "validNodeAddr")
+	// second batch (Props/SourceTrees2.lean)
+	funcDExp("treeCloserThanTargetCompare", "containers/addr-maybe-ids-by-distance.go", "closerThanTarget", "Compare")
+	funcDExp("treeLessComparerCompare", "k-nearest-nodes/k-nearest-nodes.go.go", "lessComparer", "Compare")
+	funcDExp("treeBep44Check", "bep44/item.go", "", "Check")
+	funcDExp("treeBep44Verify", "bep44/key.go", "", "Verify")
+	funcDExp("treeItemIsMutable", "bep44/item.go", "Item", "IsMutable")
+	funcDExp("treePutIsMutable", "bep44/put.go", "Put", "IsMutable")
+	funcDExp("treeItemTarget", "bep44/item.go", "Item", "Target")
+	funcDExp("treePutTarget", "bep44/put.go", "Put", "Target")
+	funcDExp("treeMakeMutableTarget", "bep44/target.go", "", "MakeMutableTarget")
+	funcDExp("treeIsLocalNetwork", "security.go", "", "isLocalNetwork")
+	funcDExp("treeSecurityInit", "security.go", "", "init")
+	funcDExp("treeTraversalNodeFilter", "server.go", "Server", "TraversalNodeFilter")
+	funcDExp("treeIsQuestionable", "node.go", "Server", "IsQuestionable")
+	// statement trees: bodies that thread a local variable through assignments
+	out.WriteString("/-- statement tree of a Go function body made of simple statements, `if`/`else` and `return`:\n`seq s k` is the assignment / declaration `s` (source text) followed by `k`; a statement after an `if` is\ncopied into both branches. -/\ninductive SExp where\n  | seq (s : String) (k : SExp)\n  | ite (c : String) (t e : SExp)\n  | ret (e : String)\n  | fall\n  | other\n  deriving DecidableEq, Repr\n\n")
+	funcSExp("stmCloserThan", "types/addr-maybe-id.go", "AddrMaybeId", "CloserThan")
 	c14Facts() // C14: sender/Close event lists, control-flow graphs of the traversal owners (owners.go)
 }
 
@@ -287,9 +304,7 @@ func dexpOfStmts(l []ast.Stmt) string {
 	}
 	switch x := l[0].(type) {
 	case *ast.AssignStmt, *ast.DeclStmt:
-		var b strings.Builder
-		printer.Fprint(&b, fset, x)
-		dexpLets = append(dexpLets, strings.Join(strings.Fields(b.String()), " "))
+		dexpLets = append(dexpLets, simpleStmtText(x))
 		return dexpOfStmts(l[1:])
 	case *ast.ReturnStmt:
 		if len(x.Results) == 1 {
@@ -300,7 +315,13 @@ func dexpOfStmts(l []ast.Stmt) string {
 		return dexpOfStmts(append(append([]ast.Stmt{}, x.List...), l[1:]...))
 	case *ast.IfStmt:
 		if x.Init != nil {
-			return "DExp.other"
+			// `if v := e; cond`: the init statement is a skipped simple statement like any other
+			// assignment (recorded in the lets); anything but an assignment is not read
+			as, ok := x.Init.(*ast.AssignStmt)
+			if !ok {
+				return "DExp.other"
+			}
+			dexpLets = append(dexpLets, simpleStmtText(as))
 		}
 		thenS := append(append([]ast.Stmt{}, x.Body.List...), l[1:]...)
 		var elseS []ast.Stmt
@@ -311,6 +332,58 @@ func dexpOfStmts(l []ast.Stmt) string {
 		return "DExp.ite " + leanStr(types.ExprString(x.Cond)) + " (" + dexpOfStmts(thenS) + ") (" + dexpOfStmts(elseS) + ")"
 	}
 	return "DExp.other"
+}
+
+// source text of a simple statement, whitespace normalised
+func simpleStmtText(x ast.Stmt) string {
+	var b strings.Builder
+	printer.Fprint(&b, fset, x)
+	return strings.Join(strings.Fields(b.String()), " ")
+}
+
+// Like dexpOfStmts, but assignments and declarations stay in the tree, in order (`SExp.seq`), so that
+// Lean can interpret bodies whose tests and result depend on a local variable that is updated on the way.
+func sexpOfStmts(l []ast.Stmt) string {
+	if len(l) == 0 {
+		return "SExp.fall"
+	}
+	switch x := l[0].(type) {
+	case *ast.AssignStmt, *ast.DeclStmt:
+		return "SExp.seq " + leanStr(simpleStmtText(x)) + " (" + sexpOfStmts(l[1:]) + ")"
+	case *ast.ReturnStmt:
+		if len(x.Results) == 1 {
+			return "SExp.ret " + leanStr(types.ExprString(x.Results[0]))
+		}
+		return "SExp.other"
+	case *ast.BlockStmt:
+		return sexpOfStmts(append(append([]ast.Stmt{}, x.List...), l[1:]...))
+	case *ast.IfStmt:
+		thenS := append(append([]ast.Stmt{}, x.Body.List...), l[1:]...)
+		var elseS []ast.Stmt
+		if x.Else != nil {
+			elseS = append(elseS, x.Else)
+		}
+		elseS = append(elseS, l[1:]...)
+		ite := "SExp.ite " + leanStr(types.ExprString(x.Cond)) + " (" + sexpOfStmts(thenS) + ") (" + sexpOfStmts(elseS) + ")"
+		if x.Init != nil {
+			as, ok := x.Init.(*ast.AssignStmt)
+			if !ok {
+				return "SExp.other"
+			}
+			return "SExp.seq " + leanStr(simpleStmtText(as)) + " (" + ite + ")"
+		}
+		return ite
+	}
+	return "SExp.other"
+}
+
+func funcSExp(name, rel, recv, fn string) {
+	fd := findFunc(rel, recv, fn)
+	e := "SExp.other"
+	if fd != nil && fd.Body != nil {
+		e = sexpOfStmts(fd.Body.List)
+	}
+	fmt.Fprintf(&out, "/-- statement tree of `%s` in %s -/\ndef %s : SExp := %s\n\n", fn, rel, name, e)
 }
 
 func defDExp(name string, e ast.Expr, src string) {
